@@ -51,6 +51,8 @@ WS = (32, 9, 10, 11, 12, 13)
 
 
 def is_ws(m, c):
+    if not is_sym(c) and not isinstance(c, int):
+        return False            # an uninterpreted piece of text (hole): opaque to character tests -- stated as an assumption by the harness
     if not is_sym(c):
         return c in WS or c in (0x85, 0xA0, 0x1680, 0x2028, 0x2029, 0x3000) or 0x2000 <= c <= 0x200A
     return m.ctx.decide(z3.Or([c == z3.BitVecVal(w, CH) for w in WS]))
@@ -1874,3 +1876,36 @@ def _hentry_or(m, callee, args):
 
 
 _prepend(r'^std::collections::hash_map::Entry::<.*>::(or_default|or_insert|or_insert_with::<.*)$', _hentry_or)
+
+
+# ------------------------------------------------------------------ vec![..] as lowered by the current compiler
+@model(r'^Box::<\[.*; \d+\]>::new_uninit$')
+def _(m, callee, args):
+    # Box { 0: Unique { pointer: NonNull<MaybeUninit<[T; N]>> } };  MaybeUninit { uninit: (), value: ManuallyDrop { MaybeDangling { [T; N] } } }
+    cell = Struct([(), Struct([Struct([None], 'MaybeDangling')], 'ManuallyDrop')], 'MaybeUninit')
+    return Struct([Struct([ValRef(cell)], 'Unique')], 'Box')
+
+
+@model(r'^std::boxed::box_assume_init_into_vec_unsafe::<')
+def _(m, callee, args):
+    cell = args[0].fields[0].fields[0].v
+    arr = cell.fields[1].fields[0].fields[0]
+    return RVec(list(arr))
+
+
+@model(r'^slice::<impl \[.*\]>::into_vec::<|^<\[.*\]>::into_vec::<')
+def _(m, callee, args):
+    v = deref_all(m, args[0])
+    return RVec(list(v.items if isinstance(v, RVec) else v))
+
+
+def _panic_any(m, callee, args):
+    a = args[0] if args else None
+    try:
+        msg = ''.join(chr(c) if isinstance(c, int) else '{' + getattr(c, 'label', '?') + '}' for c in models2.render_fmt(m, a)) if isinstance(a, tuple) else 'panic'
+    except Exception:
+        msg = 'panic'
+    raise Panic(msg)
+
+
+_prepend(r'(^|::)panic_fmt$|^core::panicking::|^std::rt::begin_panic|^std::panicking::|^core::panicking::panic_display', _panic_any)
